@@ -48,6 +48,8 @@ type Datagram struct {
 	DstConn   *UDPConn
 	// Transmit bookkeeping
 	TxStamp time.Time // sender node clock at send
+	// TxStampFault: "" (the kernel transmit timestamp was readable at once), "missing", "late"
+	TxStampFault string
 }
 
 // Route describes what the network does with one sent datagram.
@@ -444,8 +446,10 @@ func (c *UDPConn) send(b []byte, dst netip.AddrPort) (int, error) {
 		switch {
 		case plan.TxStampMissing > 0 && t.Bool(plan.TxStampMissing, 1000, "f.txmiss"):
 			n.R.Fault("tx-stamp-missing")
+			d.TxStampFault = "missing"
 		case plan.TxStampLate > 0 && t.Bool(plan.TxStampLate, 1000, "f.txlate"):
 			n.R.Fault("tx-stamp-late")
+			d.TxStampFault = "late"
 			c.LateTx++
 			c.erq = append(c.erq, errqEntry{stamp: d.TxStamp, id: txid, availAt: now.Add(2 * time.Millisecond)})
 		default:
